@@ -16,7 +16,7 @@ from checks import lockfam, fwdpart
 
 PROPS = ["C10"]
 MANIFEST = {"C10": dict(level="model_checking", design="5/C10", engine="S+P",
-    technique="TLC on LockEngine with role changes (NonLeaderDecidesNothing, NoEarlyFollowerExpiry) + trace validation of real-code role-change histories (sequential, and role changes racing requests on the gated engine C) against the TLA+ monitor MonLock (C10 clauses); forwarding: TLC on Forward.tla (transparency layer) + TLC-generated, seeded and directed request sequences through real leader / follower / CONFIG-member processes (binary and text, upstream cuts, leader gone / frozen / killed, promotion between two requests of a connection; holds taken through a non-leader that EXPIRE on the leader in real time - the unsolicited EXPRIED frame with an already answered request id on the upstream link - followed by further requests on the same connections, text LOCK / SET EX / SETEX / PSETEX and binary), every trace validated by TLC against MonForward (one reply per request, relayed reply = the leader's reply, no success of the node's own, one sequential engine explains all routes, follower holds = leader's logged holds, exactly one leader frame is the answer of a request and it is the frame of THAT request, an expiry notice reaches a binary client as a notice of that very request and a text client never)",
+    technique="TLC on LockEngine with role changes (NonLeaderDecidesNothing, NoEarlyFollowerExpiry) + trace validation of real-code role-change histories (sequential, and role changes racing requests on the gated engine C) against the TLA+ monitor MonLock (C10 clauses); forwarding: TLC on Forward.tla (transparency layer) + TLC-generated, seeded and directed request sequences through real leader / follower / CONFIG-member processes (binary and text, upstream cuts, leader gone / frozen / killed, promotion between two requests of a connection; holds taken through a non-leader that EXPIRE on the leader in real time - the unsolicited EXPRIED frame with an already answered request id on the upstream link - followed by further requests on the same connections, text LOCK / SET EX / SETEX / PSETEX and binary; every key command registered in the text dispatch tables - write class and read class, PUSH - through a non-leader as a non-first command, each write followed by reads on the leader and on the follower), every trace validated by TLC against MonForward (one reply per request, relayed reply = the leader's reply, no success of the node's own, one sequential engine explains all routes, follower holds = leader's logged holds, exactly one leader frame is the answer of a request and it is the frame of THAT request, an expiry notice reaches a binary client as a notice of that very request and a text client never, a write-class key command is refused or forwarded and answered with the leader's frame as its reply writer renders it, the leader's values follow the sequential key-value store of spec/RedisCmds.tla)",
     text="The model is exhausted for two roles and two role changes; on the real code every request sent while the node is FOLLOWER/SYNC/CONFIG/VOTE must be answered STATE_ERROR (or UNLOCK_ERROR for a key without state, or TIMEOUT by the concurrent-check fast path), the holds seen in the snapshot must be exactly those the events explain, and no persisted hold may be expired before deadline+300 s.",
     note="Refuse half in-process: the role is switched on a real leader instance (db.status under the shard mutexes, as SLock.updateState does). Forwarding half on processes: followers joined with --slaveof through a recording proxy (the leader's real replies are seen on the wire); leader -> follower demotion is not provokable (SLAVEOF host port dead-locks in updateState) and VOTE needs an election: both only in the model and in engine S. Trusted: TLC, engine S / C harness, the proxy / client driver, MonLock, MonForward.")}
 
